@@ -31,6 +31,11 @@ import (
 
 func init() {
 	props["C17"] = runC17
+	replayers["C17/pairhelpers"] = func(v rt.Violation) string {
+		c := rt.ReplayCtx("C17")
+		c.Serial("replay", func(w *rt.W) { c17PairHelpers(w, rt.ArgString(v, "a"), rt.ArgString(v, "b")) })
+		return c.Report()
+	}
 	replayers["C17/discovered"] = func(v rt.Violation) string {
 		c := rt.ReplayCtx("C17")
 		c.Serial("replay", c17DiscoveredAll)
@@ -646,6 +651,15 @@ func runC17(c *rt.Ctx) {
 	refillRun(c, c.Pick(30000, 300000), "date", "date-json", "roman", "sem", "size", "size-text", "uu")
 	c17Configured(c)
 	c.Require("configured-parser-call", 24)
+	c.Parallel("pair-helpers", 0, func(w *rt.W) {
+		texts := []string{"1.0.0-rc.1+b7", "v1.0.0-rc.1+b7", "1.0.0-rc.1+other", "v1.0.0-rc.1", "1.0.0-rc.1", "1.0.0", "v1.0.0+x", "2.0.0-a.b", "v2.0.0-a.b+c", "1.2", "v1.0.0-rc.2+b7"}
+		for i := w.Shard; i < len(texts); i += w.NShards {
+			for _, tb := range texts {
+				c17PairHelpers(w, texts[i], tb)
+			}
+		}
+	})
+	c.Require("pair-helper-on-byte-slices", 300)
 	c.Serial("discovered-methods", c17DiscoveredAll)
 	for _, t := range []string{"date", "roman", "sem", "size", "uu"} {
 		c.Require("discovered-method-call:"+t, 10)
@@ -658,6 +672,43 @@ func runC17(c *rt.Ctx) {
 	guardedInputs(c, "C17", "uu", []string{"f81d4fae-7dec-11d0-a765-00a0c91e6bf6", "urn:uuid:f81d4fae-7dec-11d0-a765-00a0c91e6bf6", "f81d4fae-7dec-11d0-a765-00a0c91e6bf", "u"})
 	c.Require("instantiation-agreement-on-accepted", 10000)
 	c.Require("instantiation-agreement-on-rejected", 10000)
+}
+
+// c17PairHelpers: the two-argument helpers of sem given byte slices. The returned version must equal what the same
+// texts give as strings, and must stay what it is when the caller overwrites its buffers afterwards.
+func c17PairHelpers(w *rt.W, ta, tb string) {
+	type hf struct {
+		name string
+		s    func(a, b string) (sem.Ver, error)
+		b    func(a, b []byte) (sem.Ver, error)
+	}
+	for _, h := range []hf{
+		{"Latest", func(a, b string) (sem.Ver, error) { return sem.Latest(a, b) }, func(a, b []byte) (sem.Ver, error) { return sem.Latest(a, b) }},
+		{"LatestTag", func(a, b string) (sem.Ver, error) { return sem.LatestTag(a, b) }, func(a, b []byte) (sem.Ver, error) { return sem.LatestTag(a, b) }},
+		{"LatestVersion", func(a, b string) (sem.Ver, error) { return sem.LatestVersion(a, b) }, func(a, b []byte) (sem.Ver, error) { return sem.LatestVersion(a, b) }},
+	} {
+		vs, es := h.s(ta, tb)
+		ba, bb := []byte(ta), []byte(tb)
+		vb, eb := h.b(ba, bb)
+		w.Eval(2)
+		args := rt.Args("helper", h.name, "a", ta, "b", tb)
+		if (es == nil) != (eb == nil) || vs != vb {
+			w.Fail("string-and-bytes-disagree-sem-pair", "pairhelpers", args, fmt.Sprintf("%+v %v", vb, eb), fmt.Sprintf("%+v %v", vs, es), h.name+" of byte slices differs from "+h.name+" of the same texts as strings")
+		}
+		if string(ba) != ta || string(bb) != tb {
+			w.Fail("input-modified-sem-pair", "pairhelpers", args, string(ba)+" "+string(bb), ta+" "+tb, h.name+" modified its input")
+		}
+		for i := range ba {
+			ba[i] = 'Z'
+		}
+		for i := range bb {
+			bb[i] = '9'
+		}
+		if vb != vs && es == nil {
+			w.Fail("value-aliases-input-buffer-sem-pair", "pairhelpers", args, fmt.Sprintf("%+v", vb), fmt.Sprintf("%+v", vs), "the version returned by "+h.name+" changed when the caller overwrote its buffers")
+		}
+		w.ClassN("pair-helper-on-byte-slices", 1)
+	}
 }
 
 func c17DiscoveredAll(w *rt.W) {
